@@ -426,6 +426,15 @@ func C01(r *h.Run) {
 				for j := 0; j < 1+rng.Intn(3); j++ {
 					resMsgs = append(resMsgs, genStruct(rng, 3))
 				}
+				unknown := ""
+				if codec == "proto" && k%2 == 1 {
+					// fields the receiver's generated type does not declare (schema skew, a relay
+					// forwarding what it received) are content of a binary message too
+					u := []byte{0xc0, 0x3e, byte(1 + rng.Intn(100)), 0xca, 0x3e, 0x03, 'a', 'b', byte('a' + rng.Intn(26))}
+					reqMsg.ProtoReflect().SetUnknown(u)
+					resMsgs[len(resMsgs)-1].ProtoReflect().SetUnknown(u[:3])
+					unknown = h.Hex(u)
+				}
 				var handlerGot *structpb.Struct
 				mux := http.NewServeMux()
 				mux.Handle("/verif.Svc/Nested", connect.NewServerStreamHandler("/verif.Svc/Nested",
@@ -454,6 +463,9 @@ func C01(r *h.Run) {
 					_ = st.Close()
 				})
 				in := map[string]any{"proto": proto, "codec": codec, "request": structText(reqMsg), "responses": len(resMsgs)}
+				if unknown != "" {
+					in["undeclared_fields_hex"] = unknown + " (fields 1000 and 1001 on the request, field 1000 on the last response)"
+				}
 				r.Eval("e2e_nested", fmt.Sprint(proto, codec, structText(reqMsg), len(resMsgs)))
 				r.Sample("e2e_nested", in)
 				if p != nil {
